@@ -57,7 +57,18 @@ func crashChild(args []string) {
 		}()
 		return obj.Decode(&bin.Buffer{Buf: buf})
 	}()
-	fmt.Printf("survived depth=%d bytes=%d err=%v\n", depth, len(buf), err)
+	res := "<nil>"
+	if err != nil {
+		res = errClass(err)
+		if res == "other" {
+			if msg := err.Error(); len(msg) > 80 {
+				res = "other: …" + msg[len(msg)-80:]
+			} else {
+				res = "other: " + msg
+			}
+		}
+	}
+	fmt.Printf("survived depth=%d bytes=%d err=%s\n", depth, len(buf), res)
 }
 
 type nestCand struct {
